@@ -1,6 +1,7 @@
 (* C13 — correspondence / property evaluation on histories observed on the
    implementation.  Executable only. *)
 From Coq Require Import List ZArith Bool.
+From GZgen Require Export C13Consts.
 From GZ Require Export Lib.CheckLib C13.Model.
 Import ListNotations.
 Open Scope Z_scope.
@@ -85,7 +86,7 @@ Fixpoint agrees_container (c : container) (levs : list lev) (obs : list cobs) : 
   | [], [] => true
   | e :: levs', o :: obs' =>
     let c' := c_apply c e in
-    cobs_eqb (sort_z (c_view c'), [sort_z (clast c')]) o && agrees_container c' levs' obs'
+    cobs_eqb (sort_z (c_values c'), [sort_z (clast c')]) o && agrees_container c' levs' obs'
   | _, _ => false
   end.
 
@@ -96,7 +97,7 @@ Fixpoint agrees_discov (s : sys) (evs : list ev) (obs : list dobs) : bool :=
     let s' := step s e in
     wf_ev_b s e &&
     pairs_eqb (sort_pairs (rvals s')) rv &&
-    list_eqb cobs_eqb (combine (map (fun c => sort_z (c_view c)) (conts s')) (ev_notes s e)) cs &&
+    list_eqb cobs_eqb (combine (map (fun c => sort_z (c_values c)) (conts s')) (ev_notes s e)) cs &&
     (Nat.eqb (length (conts s')) (length (ev_notes s e))) &&
     agrees_discov s' evs' obs'
   | _, _ => false
@@ -119,7 +120,7 @@ Fixpoint agrees_resolver (n : Z) (s : sys) (evs : list ev) (obs : list robs) : b
     let s' := step s e in
     wf_ev_b s e &&
     all_valid_pub n pubs (c_trace (the_cont s) (emitted e)) &&
-    zs_eqb (sort_z (c_view (the_cont s'))) vals &&
+    zs_eqb (sort_z (c_values (the_cont s'))) vals &&
     agrees_resolver n s' evs' obs'
   | _, _ => false
   end.
@@ -152,7 +153,7 @@ Definition agrees (c : case) : bool :=
     let s1 := step s0 (EJoin false (rvals s0)) in
     wf_run_b (init []) pre &&
     match bpubs with [p] => valid_pub n p (c_view (the_cont s1)) | _ => false end &&
-    zs_eqb (sort_z (c_view (the_cont s1))) bvals &&
+    zs_eqb (sort_z (c_values (the_cont s1))) bvals &&
     agrees_resolver n s1 evs obs
   | CSubset set sub sh out => perm_b sh set && zs_eqb (subset sh sub) out
   | CKube evs obs => agrees_kube kinit evs obs
@@ -246,10 +247,12 @@ Fixpoint prop_resolver (t : amap Z) (lastpub : list Z) (evs : list ev) (obs : li
 Definition incl_b (a b : list Z) : bool := forallb (fun x => zmem x b) a.
 Definition kwf_b (t : list Z) (e : kev) : bool :=
   match e with
-  | KAdd o => incl_b t (ips o)
+  | KAdd o => gen_kubeOnAddReplaces || incl_b t (ips o)
   | KDelete o => incl_b t (ips o)
   | KOnUpdate old new => negb (orv old =? orv new) || (incl_b t (ips new) && incl_b (ips new) t)
   | KUpdate _ => true
+  | KOther => true
+  | KTombstone _ => false
   end.
 
 Fixpoint prop_kube (t lastpub : list Z) (evs : list kev) (obs : list kobs) : bool :=
@@ -294,13 +297,13 @@ Inductive mobs :=
 Fixpoint mo_container (c : container) (levs : list lev) : list cobs :=
   match levs with
   | [] => []
-  | e :: l => let c' := c_apply c e in (sort_z (c_view c'), [sort_z (clast c')]) :: mo_container c' l
+  | e :: l => let c' := c_apply c e in (sort_z (c_values c'), [sort_z (clast c')]) :: mo_container c' l
   end.
 Fixpoint mo_discov (s : sys) (evs : list ev) : list dobs :=
   match evs with
   | [] => []
   | e :: l => let s' := step s e in
-              (sort_pairs (rvals s'), combine (map (fun c => sort_z (c_view c)) (conts s')) (ev_notes s e))
+              (sort_pairs (rvals s'), combine (map (fun c => sort_z (c_values c)) (conts s')) (ev_notes s e))
               :: mo_discov s' l
   end.
 Fixpoint mo_kube (s : kstate) (evs : list kev) : list kobs :=
@@ -312,7 +315,7 @@ Fixpoint mo_kube (s : kstate) (evs : list kev) : list kobs :=
 Fixpoint mo_views (s : sys) (evs : list ev) : list (list Z) :=
   match evs with
   | [] => []
-  | e :: l => let s' := step s e in sort_z (c_view (the_cont s')) :: mo_views s' l
+  | e :: l => let s' := step s e in sort_z (c_values (the_cont s')) :: mo_views s' l
   end.
 
 Definition model_obs (c : case) : mobs :=
